@@ -593,6 +593,13 @@ def run(ctx):
         ctx.coverage.update({"evaluations": 0, "distinct_nontrivial": 0})
         return
     npoints = int(re.search(r"(\d+) points", msg).group(1)) if re.search(r"(\d+) points", msg) else 0
+    # eventstream.go: a yield point before every acquisition of a stream lock (a parked thread holds none)
+    inst_es, msg_es = sched_util.instrument(ctx, "eventstream/eventstream.go", "eventstream_instr.go",
+                                            r"Mu\.(Lock|RLock)$=$1", hook="verifESPoint")
+    if inst_es is None:
+        ctx.tie_broken("vinstr eventstream/eventstream.go", msg_es)
+        ctx.coverage.update({"evaluations": 0, "distinct_nontrivial": 0})
+        return
 
     qcases = corpus_queue_cases() + gen_queue_cases(ctx, n_q)
     for i, c in enumerate(qcases):
@@ -611,29 +618,30 @@ def run(ctx):
     dump("c20_q_in.jsonl", qcases)
     dump("c20_s_in.jsonl", scases)
     dump("c20_t_in.jsonl", tcases)
-    for fn in ("c20_q_out.jsonl", "c20_s_out.jsonl", "c20_t_out.jsonl", "c20_q_stress.jsonl", "c20_stress.jsonl"):
+    for fn in ("c20_q_out.jsonl", "c20_s_out.jsonl", "c20_t_out.jsonl", "c20_q_stress.jsonl", "c20_stress.jsonl", "c20_handover.jsonl"):
         p = os.path.join(ctx.work, fn)
         if os.path.exists(p):
             os.remove(p)
 
     rc_go, out_go = sched_util.go_test_overlay(
         ctx, ["internal/queue", "eventstream"], "^TestVerifC20",
-        {"internal/queue": ["zz_verif_hook.go", "zz_verif_C20_test.go"], "eventstream": ["zz_verif_C20_test.go"]},
-        {"internal/queue/queue.go": inst}, env={"VERIF_C20_ROUNDS": str(rounds)}, timeout=1200 if thorough else 420)
+        {"internal/queue": ["zz_verif_hook.go", "zz_verif_C20_test.go"], "eventstream": ["zz_verif_hook.go", "zz_verif_C20_test.go"]},
+        {"internal/queue/queue.go": inst, "eventstream/eventstream.go": inst_es}, env={"VERIF_C20_ROUNDS": str(rounds), "VERIF_C20_HANDOVER": "20000" if thorough else "3000"}, timeout=1200 if thorough else 420)
     ctx.log("go harness done rc=%d" % rc_go)
     qouts = read_jsonl(os.path.join(ctx.work, "c20_q_out.jsonl"))
     souts = read_jsonl(os.path.join(ctx.work, "c20_s_out.jsonl"))
     touts = read_jsonl(os.path.join(ctx.work, "c20_t_out.jsonl"))
     qstress = read_jsonl(os.path.join(ctx.work, "c20_q_stress.jsonl"))
     sstress = read_jsonl(os.path.join(ctx.work, "c20_stress.jsonl"))
+    handover = read_jsonl(os.path.join(ctx.work, "c20_handover.jsonl"))
     if rc_go != 0 or len(qouts) != len(qcases) or len(souts) != len(scases) or len(touts) != len(tcases):
         ctx.tie_broken("go-harness internal/queue + eventstream (instrumented build or run failed)", out_go)
     if thorough:
         os.makedirs(os.path.join(ctx.work, "race"), exist_ok=True)
         rc_r, out_r = sched_util.go_test_overlay(
             ctx, ["internal/queue", "eventstream"], "^TestVerifC20.*Stress",
-            {"internal/queue": ["zz_verif_hook.go", "zz_verif_C20_test.go"], "eventstream": ["zz_verif_C20_test.go"]},
-            {"internal/queue/queue.go": inst}, env={"VERIF_C20_ROUNDS": "40", "VERIF_OUT": os.path.join(ctx.work, "race")},
+            {"internal/queue": ["zz_verif_hook.go", "zz_verif_C20_test.go"], "eventstream": ["zz_verif_hook.go", "zz_verif_C20_test.go"]},
+            {"internal/queue/queue.go": inst, "eventstream/eventstream.go": inst_es}, env={"VERIF_C20_ROUNDS": "40", "VERIF_OUT": os.path.join(ctx.work, "race")},
             timeout=900, race=True, name="overlay_race.json")
         if rc_r != 0 and "DATA RACE" in out_r:
             ctx.notes.append("-race reports a data race in the stress run (supporting evidence only): " + out_r[out_r.find("DATA RACE"):][:600])
@@ -724,9 +732,17 @@ def run(ctx):
         for kind, text in stream_seq_oracle(c, o)[:1]:
             report("stream-seq:%s" % kind, text, {"level": "eventstream sequential", "ops": c["ops"]}, False)
     t_viol = 0
+    n_blocked = 0
+    lock_shape = {}
     for c, o in zip(tcases, touts):
+        for op in o.get("ops") or []:
+            if op["op"][0] in (1, 2) and op["thread"] >= 0 and not op.get("panic"):
+                lock_shape.setdefault(op["op"][0], {}).setdefault(tuple(op.get("locks") or []), op)
         bad, overl = stream_sched_oracle(c, o)
         if not bad:
+            continue
+        if bad[0][0] == "blocked":
+            n_blocked += 1
             continue
         t_viol += 1
         kind, text = bad[0]
@@ -735,6 +751,25 @@ def run(ctx):
                {"level": "eventstream controlled schedule", "subscribers": c["nsubs"], "initial_subscriptions": c["init"],
                 "programs(1 sub s t,2 unsub s t,3 pub t e,4 bcast e ts,5 remove s,6 shutdown s,7 iter s)": c["progs"],
                 "schedule": o.get("sched"), "ops": o.get("ops"), "final": o.get("final"), "all_findings": bad[:5]}, attributable)
+    if n_blocked:
+        ctx.notes.append("%d controlled eventstream runs were abandoned because a thread blocked on a stream lock held by a parked thread (nested stream locks cannot be scheduled); not counted" % n_blocked)
+        if n_blocked > len(touts) // 3:
+            ctx.tie_broken("eventstream controlled scheduler: most runs blocked on nested stream locks", {"blocked": n_blocked, "of": len(touts)})
+    # the stream model takes Subscribe's / Unsubscribe's update of the topic map as ONE atomic step:
+    # an active subscriber's call must enter exactly one critical section of topicsMu
+    for kind_no, name in ((1, "Subscribe"), (2, "Unsubscribe")):
+        shapes = {k: v for k, v in lock_shape.get(kind_no, {}).items() if len(k) != 1}
+        # Subscribe on an inactive subscriber returns before touching the map (no lock): allowed
+        shapes = {k: v for k, v in shapes.items() if not (kind_no == 1 and len(k) == 0)}
+        if shapes:
+            k, op = next(iter(shapes.items()))
+            ctx.tie_broken("stream model vs implementation: %s is not one critical section" % name,
+                           {"lock_acquisitions_of_one_call": list(k), "op": op["op"],
+                            "model": "C20/Stream.v takes the topic-map update of %s as the single atomic step %s" % (name, "SMapAdd" if kind_no == 1 else "SMapDel")})
+    for h in handover:
+        if h["lost"] or h["stray"] or h["bad_count"] or h["dup"]:
+            report("stream-handover", "eventstream hand-over (real goroutines): the only subscriber of a topic unsubscribes while a newcomer subscribes, then one event is published: in %d of %d rounds the newcomer did not receive it, %d strays, %d wrong SubscribersCount (first bad round %d)" %
+                   (h["lost"], h["rounds"], h["stray"], h["bad_count"], h["first_bad"]), {"level": "eventstream hand-over stress", "result": h}, False)
     for r in qstress:
         for kind, text in stress_queue_oracle(r)[:1]:
             report("queue-stress:%s" % kind, "internal/queue with %d producers and %d consumers (real goroutines): %s" % (r["producers"], r["consumers"], text),
@@ -781,7 +816,8 @@ def run(ctx):
         "atomic_steps_total": steps, "yield_points_in_queue_go": npoints, "step_kind_histogram": kinds,
         "queue_cases": len(qouts), "queue_cases_where_model_flags_recycled_node_use": len(hazard_ids),
         "queue_cases_violating": q_viol, "stream_seq_cases": len(souts), "stream_sched_cases": len(touts),
-        "stream_sched_cases_violating": t_viol, "stress_rounds": len(qstress) + len(sstress),
+        "stream_sched_cases_violating": t_viol, "stream_sched_cases_blocked": n_blocked, "stress_rounds": len(qstress) + len(sstress),
+        "handover_rounds": sum(h["rounds"] for h in handover), "yield_points_in_eventstream_go": int(re.search(r"(\d+) points", msg_es).group(1)) if re.search(r"(\d+) points", msg_es) else 0,
         "violations_attributed_to_node_recycling": n_known, "queue_recycles_nodes": recycles,
         "theorems": THEOREMS,
     })
